@@ -65,12 +65,27 @@ impl RouterMap {
 
   pub async fn remove_peer_by_read_pipe(&self, pipe_read_id: usize) {
     let identity_to_remove: Option<Blob>;
+    let identity_still_claimed: bool;
     {
       let mut pipe_to_id_guard = self.read_pipe_to_identity.write();
       identity_to_remove = pipe_to_id_guard.remove(&pipe_read_id);
+      // Another connection may have taken this identity over (a peer that reconnected
+      // before its old connection was detached): its route must survive this removal.
+      identity_still_claimed = match &identity_to_remove {
+        Some(identity) => pipe_to_id_guard.values().any(|other| other == identity),
+        None => false,
+      };
     }
 
     if let Some(identity) = identity_to_remove {
+      if identity_still_claimed {
+        tracing::trace!(
+          ?identity,
+          pipe_read_id,
+          "RouterMap: identity is still announced by another pipe, forward mapping kept"
+        );
+        return;
+      }
       let mut id_to_info_guard = self.identity_to_peer_info.write();
       if let Some(removed_info) = id_to_info_guard.remove(&identity) {
         tracing::trace!(
